@@ -46,6 +46,35 @@ def tlc_cases(chk, init, invariants, c, next_="Stutter", timeout=900, workers=1)
     return cases, r
 
 
+def _cache_get(kind, cfg_text):
+    """Development aid, OFF unless VERIF_TLC_CACHE=<dir> is set (used for mutant runs: TLC's output depends on the spec and the cfg
+    only, never on the implementation under test). A normal ./check run always runs TLC."""
+    d = os.environ.get("VERIF_TLC_CACHE")
+    if not d:
+        return None, None
+    import hashlib
+    import pickle
+    h = hashlib.sha1()
+    for fn in ("PySlice.tla", "PyCollections.tla"):
+        with open(os.path.join(tlc.SPECS, fn), "rb") as f:
+            h.update(f.read())
+    h.update(kind.encode() + cfg_text.encode())
+    path = os.path.join(d, h.hexdigest() + ".pickle")
+    if os.path.exists(path):
+        with open(path, "rb") as f:
+            return path, pickle.load(f)
+    return path, None
+
+
+def _cache_put(path, obj):
+    if path:
+        import pickle
+        os.makedirs(os.path.dirname(path), exist_ok=True)
+        with open(path + ".tmp%d" % os.getpid(), "wb") as f:
+            pickle.dump(obj, f)
+        os.replace(path + ".tmp%d" % os.getpid(), path)
+
+
 def tlc_cases_parallel(chk, plans, timeout=1500):
     """plans: [(init, invariants, constants)] -> [(cases, Result)] in order; the runs execute concurrently (one worker each,
     because the cases are printed from Init, which is single-threaded anyway)."""
@@ -54,10 +83,15 @@ def tlc_cases_parallel(chk, plans, timeout=1500):
 
     def one(i):
         init, invs, c = plans[i]
-        r = tlc.run("PyCollections", tlc.cfg(constants=c, init=init, next_="Stutter", invariants=invs),
-                    os.path.join(chk.work, "job%d" % i), workers=1, timeout=timeout, keep_stdout=False, heap="3g")
+        cfgt = tlc.cfg(constants=c, init=init, next_="Stutter", invariants=invs)
+        path, hit = _cache_get("cases", cfgt)
+        if hit is not None:
+            return hit
+        r = tlc.run("PyCollections", cfgt, os.path.join(chk.work, "job%d" % i), workers=1, timeout=timeout, keep_stdout=False, heap="3g")
         cases = r.json
         r.json = []
+        r.stdout = ""
+        _cache_put(path, (cases, r))
         return cases, r
 
     with ThreadPoolExecutor(max_workers=max(1, min(tlc.NPROC, len(plans)))) as ex:
@@ -78,7 +112,13 @@ def dump_graphs_parallel(chk, plans, timeout=1500):
         init, nxt, c, invs, props = plans[i]
         cfgt = tlc.cfg(constants=c, init=init, next_=nxt, invariants=list(invs), properties=list(props),
                        view="View", action_constraints=["Emit"], constraints=["Depth"])
-        return graph.dump("PyCollections", cfgt, os.path.join(chk.work, "gjob%d" % i), timeout=timeout, heap="3g")
+        path, hit = _cache_get("graph", cfgt)
+        if hit is not None:
+            return hit
+        g = graph.dump("PyCollections", cfgt, os.path.join(chk.work, "gjob%d" % i), timeout=timeout, heap="3g")
+        g.tlc.stdout = ""
+        _cache_put(path, g)
+        return g
 
     with ThreadPoolExecutor(max_workers=max(1, min(tlc.NPROC, len(plans)))) as ex:
         out = list(ex.map(one, range(len(plans))))
